@@ -109,7 +109,7 @@ def register(db):
             ("long", "(result.code == 'long') == ((-9223372036854775808 <= value and value <= 9223372036854775807) and not (-2147483648 <= value and value <= 2147483647))"),
             ("integer-otherwise", "result.code in ('short', 'int', 'long', 'integer')"),
         ],
-        raises={}, properties=P,
+        raises={}, properties=P, inline_calls=True,
     ))
 
     # ------------------------------------------------------------------ proxy converter (Xml* types)
